@@ -4,6 +4,7 @@ import (
 	"flag"
 	"fmt"
 	"os"
+	"runtime/debug"
 	"sort"
 	"strconv"
 	"strings"
@@ -75,12 +76,10 @@ func main() {
 func runOne(ck props.Checker, c *props.Ctx, verif string, known []check.Known, seed int) (code int) {
 	defer func() {
 		if x := recover(); x != nil {
-			fmt.Fprintf(os.Stderr, "BROKEN-CHECKER: panic in %s: %v\n", c.R.Prop, x)
-			c.R.Broken = append(c.R.Broken, fmt.Sprint("panic: ", x))
+			// a construct the analyser cannot handle leaves the property uncertified: fail the check
+			fmt.Fprintf(os.Stderr, "analyser panic in %s: %v\n%s\n", c.R.Prop, x, debug.Stack())
+			c.R.Undecided("analyser", "panic", "", "the analyser handles every construct of the current tree", fmt.Sprint("panic: ", x))
 			code = c.R.Finish(verif, known, seed)
-			if code == 0 {
-				code = 2
-			}
 		}
 	}()
 	ck(c)
